@@ -82,10 +82,10 @@ func (s *socket) RecvMsg() (*protocol.Message, error) {
 	// socket.  Later we can look at moving this to priority queues
 	// based on socket pipes.
 
+	timeQ := nilQ
 	for {
 		s.Lock()
-		timeQ := nilQ
-		if s.recvExpire > 0 {
+		if timeQ == nil && s.recvExpire > 0 {
 			timeQ = time.After(s.recvExpire)
 		}
 		recvQ := s.recvQ
